@@ -208,6 +208,12 @@ def judge_key(sp, res, spec, k, expr, coords, pts, ref, arms, order, g, tag, dia
             break
         worst = max(worst, float(np.abs(np.asarray(v) - w).max()))
         sc = max(sc, float(np.abs(w).max()))
+        if k == 'Einstein_down':
+            # G_ab is a difference of two terms and vanishes identically in two
+            # dimensions: aurel carries the factor 0.5 as a float, so its simplified
+            # expression is exact only to round-off relative to the terms subtracted
+            sc = max(sc, float(np.abs(rf['Ricci_down']).max()
+                               + 0.5 * abs(rf['RicciS']) * np.abs(rf['gdown']).max()))
     res['observations'] += 1
     arm = arms.get(k, '')
     mech = f"{k}{('#' + arm) if arm else ''} [{'diagonal' if diag else 'non-diagonal'}, simplify={spec['simplify']}]"
